@@ -46,6 +46,51 @@ STATIC_CENSUS = {
 CENSUS_OUT_OF_SCOPE_OBJS = {"topology-linux.o", "topology-x86.o"}   # native discovery backends: load of the running machine, not modelled
 
 
+INFRA_RC = (124, -9, 137, -15)      # timeout, killed (OOM killer), terminated
+PER_CLASS_CAP = 5
+_vcount = {}
+
+
+def V(run, key, what, replay_text, no_input=False):
+    """run.violation with a cap per key class (text before the first ':'): the first PER_CLASS_CAP distinct
+    keys of a class are reported, the rest only counted (coverage key violations_per_class)."""
+    cls = key.split(":")[0]
+    seen = _vcount.setdefault(cls, set())
+    if key in seen:
+        return
+    seen.add(key)
+    if len(seen) <= PER_CLASS_CAP:
+        run.violation(key, what, replay_text, no_input=no_input)
+
+
+def hrun(ctx, cmd, inp, env=None, timeout=60):
+    """Run a harness / driver.  A timeout or a kill is never evidence about hwloc on a loaded machine: retry
+    twice with ten times the limit.  -> (rc, out, err, hung); rc None = skipped as infrastructure (the process was
+    killed again); hung = it timed out twice more with the long limit (a hang that reproduces)."""
+    long_limit = timeout * 10
+    timeout *= float(os.environ.get("HWV_C17_TSCALE", "1"))     # self-test of the retry path only
+    rc, out, err = C.sh(cmd, input=inp, env=env, timeout=timeout)
+    timeout = long_limit / 10
+    n = 0
+    while rc in INFRA_RC and n < 2:
+        n += 1
+        ctx.infra["retried_after_timeout_or_kill"] += 1
+        try:     # keep the input of what was retried, for a post-mortem
+            dd = os.path.join(C.BUILD, "c17-retried")
+            os.makedirs(dd, exist_ok=True)
+            with open(os.path.join(dd, "%d-%d.case" % (os.getpid(), ctx.infra["retried_after_timeout_or_kill"])), "wb") as f:
+                f.write(("# cmd: %s rc=%s limit=%s\n" % (os.path.basename(cmd[0]), rc, timeout)).encode() + inp)
+        except OSError:
+            pass
+        rc, out, err = C.sh(cmd, input=inp, env=env, timeout=timeout * 10)
+    if rc in INFRA_RC:
+        if rc == 124:
+            return rc, out, err, True
+        ctx.infra["skipped_killed"] += 1
+        return None, out, err, False
+    return rc, out, err, False
+
+
 def static_census(run):
     lib = C.build_lib("tsan")
     rc, out, err = C.sh(["nm", lib], timeout=60)
@@ -61,6 +106,8 @@ def static_census(run):
         name = re.sub(r"\.\d+$", "", m.group(2))
         if name.startswith("hwloc_verif_"):     # HWLOC_VERIF hook pointers (DESIGN section 7), NULL by default, set before any thread starts
             continue
+        if name.startswith("__gcov") or name.startswith(".LPBX") or name.startswith("__sancov"):   # coverage-survey builds (HWV_COV=1)
+            continue
         if name.startswith("__tsan") or name.startswith(".LC") or name.startswith("_ZL") or name.endswith("_component") or name.endswith("_callbacks") and obj != "topology-xml.o":
             continue
         if obj in CENSUS_OUT_OF_SCOPE_OBJS:
@@ -70,10 +117,11 @@ def static_census(run):
             unknown.append("%s:%s" % (obj, name))
     run.cov["static_census"] = {"writable_statics_seen": len(seen), "unclassified": unknown,
                                 "out_of_scope_objects": sorted(CENSUS_OUT_OF_SCOPE_OBJS)}
-    for u in unknown:
-        run.violation("static-census:" + u, "the library has a writable static object the thread-safety model does not know: %s "
-                      "(a new process-wide cache must be added to Conc/Events.v static_id or classified in checks/c17.py)" % u,
-                      "kind: correspondence\nunclassified static: %s\n" % u, no_input=True)
+    if unknown:
+        V(run, "static-census:" + unknown[0] + ("+%d-more" % (len(unknown) - 1) if len(unknown) > 1 else ""),
+          "the library has writable static object(s) the thread-safety model does not know: %s "
+          "(a new process-wide cache must be added to Conc/Events.v static_id or classified in checks/c17.py)" % ", ".join(unknown[:20]),
+          "kind: correspondence\nunclassified statics:\n%s\n" % "\n".join(unknown), no_input=True)
 
 
 def backend_write_sites(run):
@@ -96,7 +144,7 @@ def backend_write_sites(run):
                 bad.append("%s:%d guarded by %r" % (func, i + 1, cond))
     run.cov["xml_backend_pointer_write_sites"] = ["%s:%d %s" % s for s in sites]
     for b in bad:
-        run.violation("backend-write-site:" + b.split(" ")[0].split(":")[0],
+        V(run, "backend-write-site:" + b.split(" ")[0].split(":")[0],
                       "topology-xml.c writes the process-wide XML backend pointer at a site / under a condition the model does not know: %s "
                       "(the model only has the errno==ENOSYS fallback; a write after first use is an interference event between independent topologies)" % b,
                       "kind: correspondence\nsite: %s\n" % b, no_input=True)
@@ -112,7 +160,10 @@ def make_docs(ctx):
     for k, (b, src) in enumerate(sorted(bases.items())):
         script += "init %d\nload %d 0 bind=0 %s\nmod %d maset 2 0\nmod %d distadd PU 4\nmod %d refresh\nexportfile %d %s\ndestroy %d\n" % (
             k, k, src, k, k, k, k, os.path.join(d, "base-%s.%d.xml" % (b, os.getpid())), k)
-    rc, out, err = C.sh([ctx.exe_asan], input=script.encode(), env=C.run_env(), timeout=60)
+    rc, out, err, hung = hrun(ctx, [ctx.exe_asan], script.encode(), env=C.run_env(), timeout=60)
+    if rc is None or hung or not all(os.path.exists(os.path.join(d, "base-%s.%d.xml" % (b, os.getpid()))) for b in bases):
+        ctx.infra["skipped_cases"].append("document-factory")
+        return None
     docs = {}
     for b in sorted(bases):
         tmp = os.path.join(d, "base-%s.%d.xml" % (b, os.getpid()))
@@ -139,44 +190,70 @@ def thread_ops(transcript):
 
 
 def faulty_divergences(ctx, case):
-    """Run the histories concurrently and each one alone in a fresh process (ASan build); -> (list of
-    (thread, call index, command, concurrent, alone), stderr, rc)"""
-    rc, out, err = C.sh([ctx.exe_asan], input=case.encode(), env=C.run_env(), timeout=30)
+    """Run the histories concurrently and each one alone in a fresh process (ASan build).
+    -> (divergences [(thread, call index, command, concurrent, alone)], stderr, rc, per-thread ops, status)
+    status: "ok" | "infra" (a run was killed, or a result is missing without a sanitizer/crash exit code: nothing can
+    be concluded) | "hang" (a run timed out again twice with ten times the limit)."""
+    T = 30 if ctx.tier == "quick" else 60
+    rc, out, err, hung = hrun(ctx, [ctx.exe_asan], case.encode(), env=C.run_env(), timeout=T)
+    if hung:
+        return [], err.decode(errors="replace"), 124, {}, "hang"
+    if rc is None:
+        return [], "", 0, {}, "infra"
     conc = thread_ops(out.decode(errors="replace"))
     progs = {}
     for l in case.split("\n"):
         if l.startswith("prog "):
             t = l.split(None, 2)
             progs.setdefault(int(t[1]), []).append(t[2])
-    div = []
+    div, status = [], "ok"
     for i in sorted(progs):
-        rc1, out1, err1 = C.sh([ctx.exe_asan], input=G.solo_case(case, i).encode(), env=C.run_env(), timeout=30)
+        rc1, out1, err1, hung1 = hrun(ctx, [ctx.exe_asan], G.solo_case(case, i).encode(), env=C.run_env(), timeout=T)
+        if hung1:
+            return [], err1.decode(errors="replace"), 124, conc, "hang"
+        if rc1 is None:
+            return [], "", 0, conc, "infra"
         solo = thread_ops(out1.decode(errors="replace")).get(0, ([], "1"))[0]
         c = conc.get(i, ([], "1"))[0]
         if rc1 != 0 and rc == 0:
             rc = rc1
             err = err1
-        for k in range(max(len(c), len(solo))):
-            a = c[k] if k < len(c) else "missing"
-            b = solo[k] if k < len(solo) else "missing"
-            if a != b:
-                div.append((i, k, progs[i][k] if k < len(progs[i]) else "?", a, b))
+        if len(c) != len(progs[i]) or len(solo) != len(progs[i]):
+            # a digest is missing: the process did not get to print it.  With a sanitizer / crash exit code that is
+            # reported by the caller (rc); otherwise it says nothing about hwloc
+            status = "infra" if rc == 0 else status
+            continue
+        for k in range(len(c)):
+            if c[k] != solo[k]:
+                div.append((i, k, progs[i][k], c[k], solo[k]))
                 break
-    return div, err.decode(errors="replace"), rc, conc
+    return div, err.decode(errors="replace"), rc, conc, status
 
 
 def run_faulty(ctx, run, name, case):
     import time
     replay = "kind: input\ncase: %s\n<<<CASE\n%s>>>CASE\n" % (name, case)
-    div, err, rc, conc = faulty_divergences(ctx, case)
+    div, err, rc, conc, status = faulty_divergences(ctx, case)
+    for _ in range(2):
+        if status != "infra":
+            break
+        ctx.infra["missing_digest_reruns"] += 1
+        div, err, rc, conc, status = faulty_divergences(ctx, case)
+    if status == "infra":
+        ctx.infra["skipped_for_timeout"] += 1
+        ctx.infra["skipped_cases"].append(name)
+        return
+    if status == "hang":
+        V(run, "harness-hang:indep-faulty", "the ASan build timed out three times on %s, twice with ten times the limit: a hang that reproduces" % name, replay)
+        return
     run.count(case, nontrivial=True, sample={"case": name, "kind": "indep-faulty"}, kind="indep-faulty")
     for i, (ops, bad) in conc.items():
         for o in ops:
             run.count("%s/%d/%s" % (name, i, o), nontrivial=True, kind="faulty-call-rc%s" % (o[-1] if o else "?"))
         if bad != "0":
-            run.violation("harness-parse", "thread program not understood in %s" % name, replay, no_input=True)
+            V(run, "harness-parse", "thread program not understood in %s" % name, replay, no_input=True)
     if rc != 0:
-        run.violation("harness-asan:indep-faulty", "ASan/UBSan build failed rc=%d on %s: %s" % (rc, name, err[-600:]), replay + "\nstderr:\n" + err[-3000:])
+        V(run, "harness-asan:indep-faulty", "ASan/UBSan build failed rc=%d on %s: %s" % (rc, name, err[-600:]), replay + "\nstderr:\n" + err[-3000:])
     if div:
         t0 = time.time()
 
@@ -184,25 +261,33 @@ def run_faulty(ctx, run, name, case):
             if time.time() - t0 > 25:
                 return False
             d = faulty_divergences(ctx, c)
-            return d[2] == 0 and any(x[3] != "missing" and x[4] != "missing" for x in d[0])
+            return d[4] == "ok" and d[2] == 0 and bool(d[0])
         small = G.shrink(case, still) if not getattr(ctx, "replaying", False) else case
-        d2 = faulty_divergences(ctx, small)[0]
+        again = faulty_divergences(ctx, small)
+        d2 = again[0] if again[4] == "ok" else []
         if not d2:
             small, d2 = case, div
         i, k, cmd, a, b = d2[0]
         toks = cmd.split()
         site = toks[0] + ("-" + toks[4] + "-" + os.path.basename(toks[5]).replace(".xml", "") if toks[0] == "load" and len(toks) > 5 else ("-" + toks[2] if len(toks) > 2 else ""))
-        run.violation("interference:" + site,
+        V(run, "interference:" + site,
                       "independent topologies interfere: thread %d, call %d `%s` gives %s next to the other threads' histories but %s when the same history runs alone in a fresh process"
                       % (i, k, cmd, a, b),
                       "kind: input\ncase: %s\n<<<CASE\n%s>>>CASE\nthread %d call %d: %s\nconcurrent: %s\nalone: %s\n" % (name, small, i, k, cmd, a, b))
-    rc_t, out_t, err_t = C.sh([ctx.exe_tsan], input=case.encode(), env=C.run_env(TSAN_OPTIONS="halt_on_error=0 exitcode=66 report_signal_unsafe=0 history_size=4"), timeout=300)
+    rc_t, out_t, err_t, hung_t = hrun(ctx, [ctx.exe_tsan], case.encode(), env=C.run_env(TSAN_OPTIONS="halt_on_error=0 exitcode=66 report_signal_unsafe=0 history_size=4"), timeout=60 if ctx.tier == "quick" else 90)
+    if hung_t:
+        V(run, "harness-hang:indep-faulty-tsan", "the TSan build timed out three times on %s, twice with ten times the limit" % name, replay)
+        return
+    if rc_t is None:
+        ctx.infra["skipped_for_timeout"] += 1
+        ctx.infra["skipped_cases"].append(name + "(tsan)")
+        return
     if rc_t not in (0, 66):
-        run.violation("harness-tsan:indep-faulty", "TSan build failed rc=%d on %s" % (rc_t, name), replay + "\nstderr:\n" + err_t.decode(errors="replace")[-3000:])
+        V(run, "harness-tsan:indep-faulty", "TSan build failed rc=%d on %s" % (rc_t, name), replay + "\nstderr:\n" + err_t.decode(errors="replace")[-3000:])
     cats = parse_tsan(err_t.decode(errors="replace"))
     ctx.tsan_reports += len(cats)
     for c in sorted(set(cats)):
-        run.violation("tsan:indep-faulty:%s" % c, "ThreadSanitizer data race between independent histories (with failing loads): %s" % c,
+        V(run, "tsan:indep-faulty:%s" % c, "ThreadSanitizer data race between independent histories (with failing loads): %s" % c,
                       replay + "\ntsan:\n" + err_t.decode(errors="replace")[:6000])
     ctx.faulty_cases += 1
     ctx.faulty_calls += sum(len(o[0]) for o in conc.values())
@@ -336,20 +421,31 @@ def run_case(ctx, run, name, case, replaying=False):
     kind = (re.search(r"# kind: (\S+)", case) or [None, "readers-warm"])[1]
     inp = case.encode()
     replay = "kind: input\ncase: %s\n<<<CASE\n%s>>>CASE\n" % (name, case)
-    rc_a, out_a, err_a = C.sh([ctx.exe_asan], input=inp, env=C.run_env(), timeout=120)
-    rc_t, out_t, err_t = C.sh([ctx.exe_tsan], input=inp, env=C.run_env(TSAN_OPTIONS="halt_on_error=0 exitcode=66 report_signal_unsafe=0 history_size=4"), timeout=300)
+    rc_a, out_a, err_a, hung_a = hrun(ctx, [ctx.exe_asan], inp, env=C.run_env(), timeout=30 if ctx.tier == "quick" else 60)
+    rc_t, out_t, err_t, hung_t = hrun(ctx, [ctx.exe_tsan], inp, env=C.run_env(TSAN_OPTIONS="halt_on_error=0 exitcode=66 report_signal_unsafe=0 history_size=4"), timeout=60 if ctx.tier == "quick" else 90)
+    if hung_a or hung_t:
+        V(run, "harness-hang:%s" % kind, "the %s build timed out three times on %s, twice with ten times the limit: a hang that reproduces" % ("ASan" if hung_a else "TSan", name), replay)
+        return {}
+    if rc_a is None or rc_t is None:
+        ctx.infra["skipped_for_timeout"] += 1
+        ctx.infra["skipped_cases"].append(name)
+        return {}
     ta, tt = out_a.decode(errors="replace"), out_t.decode(errors="replace")
     run.count(ta, nontrivial=True, sample={"case": name, "kind": kind, "first_lines": ta.split("\n")[:3]}, kind=kind)
     if rc_a != 0:
-        run.violation("harness-asan:%s" % kind, "ASan/UBSan build failed rc=%d on %s: %s" % (rc_a, name, err_a.decode(errors="replace")[-600:]), replay + "\nstderr:\n" + err_a.decode(errors="replace")[-3000:])
+        V(run, "harness-asan:%s" % kind, "ASan/UBSan build failed rc=%d on %s: %s" % (rc_a, name, err_a.decode(errors="replace")[-600:]), replay + "\nstderr:\n" + err_a.decode(errors="replace")[-3000:])
     if rc_t not in (0, 66):
-        run.violation("harness-tsan:%s" % kind, "TSan build failed rc=%d on %s" % (rc_t, name), replay + "\nstderr:\n" + err_t.decode(errors="replace")[-3000:])
+        V(run, "harness-tsan:%s" % kind, "TSan build failed rc=%d on %s" % (rc_t, name), replay + "\nstderr:\n" + err_t.decode(errors="replace")[-3000:])
     # ---- model
     mcase, skipped = model_case(case, ta)
-    rc_m, out_m, err_m = C.sh([ctx.drv], input=mcase.encode(), timeout=60)
+    rc_m, out_m, err_m, hung_m = hrun(ctx, [ctx.drv], mcase.encode(), timeout=60)
+    if rc_m is None:
+        ctx.infra["skipped_for_timeout"] += 1
+        ctx.infra["skipped_cases"].append(name + "(model)")
+        return {}
     tm = out_m.decode(errors="replace")
     if rc_m != 0:
-        run.violation("correspondence:driver-failed", "model driver failed on %s: %s" % (name, err_m.decode(errors="replace")[-400:]), replay + "\nmodel case:\n" + mcase, no_input=True)
+        V(run, "correspondence:driver-failed", "model driver failed on %s: %s" % (name, err_m.decode(errors="replace")[-400:]), replay + "\nmodel case:\n" + mcase, no_input=True)
         return {}
     M = {}
     for l in tm.split("\n"):
@@ -368,16 +464,16 @@ def run_case(ctx, run, name, case, replaying=False):
                 continue
             rc, dv, mv, chg = fieldv(l, "rc"), fieldv(l, "dv"), fieldv(l, "mv"), fieldv(l, "chg")
             if rc == "-2":
-                run.violation("harness-parse", "harness could not parse line %d of %s" % (n, name), replay, no_input=True)
+                V(run, "harness-parse", "harness could not parse line %d of %s" % (n, name), replay, no_input=True)
                 continue
             allv = "0" not in (dv or "") and "0" not in (mv or "")
             # spec: load and refresh end with everything valid
             if k == "load" and rc == "1" and not allv:
                 key = "load-ends-invalid:bind-restrict" if fieldv(l, "restricted") == "1" else "load-ends-invalid:%s" % kind
-                run.violation(key, "hwloc_topology_load returned 0 but left caches invalid (dv=%s mv=%s): concurrent consulting calls on the just-loaded topology refresh them concurrently" % (dv, mv), replay + "\n" + l)
+                V(run, key, "hwloc_topology_load returned 0 but left caches invalid (dv=%s mv=%s): concurrent consulting calls on the just-loaded topology refresh them concurrently" % (dv, mv), replay + "\n" + l)
             if k == "mod" and what == "refresh" and rc == "1" and not allv:
                 key = "refresh-leaves-invalid:nomemattr-user-attr" if kind == "nomemattr" else "refresh-leaves-invalid:%s" % kind
-                run.violation(key, "hwloc_topology_refresh left caches invalid (dv=%s mv=%s)" % (dv, mv), replay + "\n" + l)
+                V(run, key, "hwloc_topology_refresh left caches invalid (dv=%s mv=%s)" % (dv, mv), replay + "\n" + l)
             ml = M.get(("S", n))
             if label == "asan" and ml is not None and not diverged:
                 # spec: a consulting call on an all-valid topology changes no cache (pre-state = model's, checked equal below)
@@ -385,7 +481,7 @@ def run_case(ctx, run, name, case, replaying=False):
                 diff = [f for f in cmpf if fieldv(l, f) != fieldv(ml, f)]
                 if diff:
                     diverged = True      # later lines of this case follow from the same divergence
-                    run.violation("correspondence:%s-%s:%s" % (k, what, ",".join(diff)),
+                    V(run, "correspondence:%s-%s:%s" % (k, what, ",".join(diff)),
                                   "model and implementation differ on %s line %d (%s): impl %r model %r" % (name, n, ",".join(diff), l, ml),
                                   "kind: correspondence\n" + replay + "\nimpl: %s\nmodel: %s\n" % (l, ml), no_input=True)
                 else:
@@ -400,10 +496,12 @@ def run_case(ctx, run, name, case, replaying=False):
         t = m.group(3)
         dv, mv = fieldv(l, "dv") or "", fieldv(l, "mv") or ""
         if m.group(2) == "cons" and prev_valid.get(t) and fieldv(l, "chg") == "1":
-            run.violation("valid-reader-writes:%s" % m.group(4), "consulting call %s on a topology whose caches were all valid changed a cache" % m.group(4), replay + "\n" + l)
+            V(run, "valid-reader-writes:%s" % m.group(4), "consulting call %s on a topology whose caches were all valid changed a cache" % m.group(4), replay + "\n" + l)
         prev_valid[t] = "0" not in dv and "0" not in mv
     # ---- concurrent sections
     obs = {"kind": kind, "tsan": [], "model_races": []}
+    if kind == "control-unrefreshed":
+        ctx.control_ran = True
     cats = parse_tsan(err_t.decode(errors="replace"))
     obs["tsan"] = sorted(set(cats))
     predicted = set()
@@ -419,16 +517,16 @@ def run_case(ctx, run, name, case, replaying=False):
         for l in tr.split("\n"):
             if l.startswith("T "):
                 if fieldv(l, "bad") != "0":
-                    run.violation("harness-parse", "thread program not understood in %s" % name, replay, no_input=True)
+                    V(run, "harness-parse", "thread program not understood in %s" % name, replay, no_input=True)
                 if fieldv(l, "eq") != "1" and kind in ("readers-warm", "readers-noexport", "readers-cold", "indep-warm", "indep-cold"):
-                    run.violation("digest-mismatch:%s" % kind, "thread %s saw results different from the sequential run (%s build) in %s" % (l.split()[1], label, name), replay + "\n" + l)
+                    V(run, "digest-mismatch:%s" % kind, "thread %s saw results different from the sequential run (%s build) in %s" % (l.split()[1], label, name), replay + "\n" + l)
             if l.startswith("R ") and kind in ("readers-warm", "readers-noexport", "readers-cold") and fieldv(l, "cache_chg") != "0":
-                run.violation("valid-reader-writes:concurrent", "a cache of a refreshed topology changed during a readers-only section (%s build)" % label, replay + "\n" + l)
+                V(run, "valid-reader-writes:concurrent", "a cache of a refreshed topology changed during a readers-only section (%s build)" % label, replay + "\n" + l)
     for c in sorted(set(cats)):
         if c in predicted:
             if c.startswith("static:"):
                 fn = c.split(":", 1)[1]
-                run.violation("first-use-static:" + fn,
+                V(run, "first-use-static:" + fn,
                               "ThreadSanitizer: data race on the function-local static of %s when two threads call it concurrently (%s)" % (fn, kind),
                               replay + "\ntsan:\n" + err_t.decode(errors="replace")[:6000])
                 ctx.confirmed.add(c)
@@ -437,10 +535,10 @@ def run_case(ctx, run, name, case, replaying=False):
             elif kind in ("load-bind", "nomemattr"):
                 ctx.confirmed.add(kind + ":" + c)   # the violation itself is raised by the flag check above
             else:
-                run.violation("tsan:%s:%s" % (kind, c), "ThreadSanitizer data race in %s (the model predicts it: caches not valid at the start of the section)" % c,
+                V(run, "tsan:%s:%s" % (kind, c), "ThreadSanitizer data race in %s (the model predicts it: caches not valid at the start of the section)" % c,
                               replay + "\ntsan:\n" + err_t.decode(errors="replace")[:6000])
         else:
-            run.violation("tsan:%s:%s" % (kind, c), "ThreadSanitizer data race the model does not predict: %s in a %s section" % (c, kind),
+            V(run, "tsan:%s:%s" % (kind, c), "ThreadSanitizer data race the model does not predict: %s in a %s section" % (c, kind),
                           replay + "\ntsan:\n" + err_t.decode(errors="replace")[:6000])
     for p in predicted - set(cats):
         ctx.unobserved[p] = ctx.unobserved.get(p, 0) + 1
@@ -455,6 +553,9 @@ def check(run, replay=None):
     ctx.exe_asan = C.build_harness("hwv_mt", ["hwv_mt.c"], san=True, deps=["hwv_dump.h"])
     ctx.exe_tsan = C.build_harness("hwv_mt", ["hwv_mt.c"], san="tsan", deps=["hwv_dump.h"])
     ctx.confirmed, ctx.control_seen, ctx.unobserved, ctx.tsan_reports = set(), False, {}, 0
+    ctx.tier = run.tier
+    ctx.infra = {"retried_after_timeout_or_kill": 0, "skipped_killed": 0, "missing_digest_reruns": 0, "skipped_for_timeout": 0, "skipped_cases": []}
+    _vcount.clear()
     run.assumptions.append("ThreadSanitizer and the per-thread digests observe the schedules that actually happened on this machine and its memory model; "
                            "they are supporting evidence. What is proved is over ALL interleavings of the MODEL's event lists (Conc/Events.v).")
     run.assumptions.append("the model takes three tree-level facts from the implementation run (objects of a distances structure surviving a restrict, "
@@ -463,7 +564,7 @@ def check(run, replay=None):
         txt = open(replay).read()
         m = re.search(r"<<<CASE\n(.*?)>>>CASE", txt, re.S)
         if not m:
-            run.violation("replay-without-input", "this replay file names a theorem or a correspondence, not an input: re-run ./check.py C17", txt[:2000], no_input=True)
+            V(run, "replay-without-input", "this replay file names a theorem or a correspondence, not an input: re-run ./check.py C17", txt[:2000], no_input=True)
             return run.finish(proof, trusted=TRUSTED)
         body = m.group(1)
         if "# kind: indep-faulty" in body:
@@ -498,11 +599,13 @@ def check(run, replay=None):
     cases.append(("nomemattr", G.nomemattr(rng, C.REPO)))
     kinds = {}
     rng_f = run.rng
-    for r in range(12 if run.tier == "thorough" else 2):
+    for r in range((12 if run.tier == "thorough" else 2) if docs else 0):
         for T in ((2, 4, 16) if run.tier == "thorough" else (2, 4)):
             cases.append(("indep-faulty-T%d-%d" % (T, r), G.indep_faulty(rng_f, C.REPO, docs, T, ordered=(r % 2 == 0))))
     for name, case in cases:
         if "# kind: indep-faulty" in case:
+            if not docs:
+                continue
             run_faulty(ctx, run, name, case.replace("@DOCS@", os.path.join(C.BUILD, "c17-docs")))
             continue
         o = run_case(ctx, run, name, case)
@@ -511,13 +614,15 @@ def check(run, replay=None):
             k["cases"] += 1
             k["tsan"] |= set(o["tsan"])
             k["model"] |= set(o["model_races"])
-    if not ctx.control_seen:
-        run.violation("tsan-control-blind", "ThreadSanitizer did not report the cache race of the unrefreshed-readers control: the race observation is blind",
+    if getattr(ctx, "control_ran", False) and not ctx.control_seen:
+        V(run, "tsan-control-blind", "ThreadSanitizer did not report the cache race of the unrefreshed-readers control: the race observation is blind",
                       "kind: infrastructure\n", no_input=True)
     run.cov["sections"] = {k: {"cases": v["cases"], "tsan_categories": sorted(v["tsan"]), "model_conflicts": sorted(v["model"])} for k, v in kinds.items()}
     run.cov["tsan_reports_total"] = ctx.tsan_reports
+    run.cov["infrastructure"] = ctx.infra
+    run.cov["violations_per_class"] = {k: len(v) for k, v in _vcount.items()}
     run.cov["indep_faulty"] = {"cases": ctx.faulty_cases, "calls_compared_with_fresh_process_reference": ctx.faulty_calls,
-                               "documents": {b: sorted(v) for b, v in docs.items()}}
+                               "documents": {b: sorted(v) for b, v in (docs or {}).items()}}
     run.cov["findings_confirmed_by_tsan"] = sorted(ctx.confirmed)
     run.cov["model_conflicts_not_observed_in_this_run"] = ctx.unobserved
     run.cov["threads"] = [2, 4, 16]
